@@ -382,6 +382,19 @@ func dispatch(input io.Reader, logPath string, workerArgs []string, nworkers, ba
 				if enough {
 					continue // three reproduced process deaths / hangs are reported; do not spend minutes on more
 				}
+				// does the SEQUENCE reproduce?  (a failure may need the cases before it: pooled state of the library)
+				seqRepro, confirmedBefore := false, 0
+				if len(b) > 1 {
+					qs, errS := startProc(workerArgs)
+					if errS == nil {
+						_, eS := qs.runBatch(b, 90*time.Second)
+						qs.kill()
+						seqRepro = eS != nil
+					}
+				}
+				mu.Lock()
+				confirmedBefore = sum.Crashes
+				mu.Unlock()
 				for _, line := range b {
 					q, err2 := startProc(workerArgs)
 					if err2 != nil {
@@ -412,6 +425,27 @@ func dispatch(input io.Reader, logPath string, workerArgs []string, nworkers, ba
 					sum.Cases++
 					mu.Unlock()
 				}
+				mu.Lock()
+				if seqRepro && sum.Crashes == confirmedBefore {
+					// no single case dies alone, the sequence does, twice: a verdict about the sequence
+					sum.Crashes++
+					var cs []string
+					for _, l := range b {
+						in, _ := decodeLine(l)
+						cs = append(cs, string(in))
+					}
+					sum.Viol = append(sum.Viol, violation{Prop: crashProp, Kind: "process-death-or-hang-in-a-sequence-of-cases", Text: fmt.Sprintf("(a sequence of %d cases in one process)", len(b)), Detail: err.Error() + " (the same sequence failed again in a fresh process; no case of it fails alone)", Sig: "crash-seq", Case: strings.Join(cs, "\n")})
+					sum.Counters["violations:"+crashProp+":process-death-or-hang-in-a-sequence-of-cases"]++
+					// the unreproduced single-case notes of this batch are explained by the sequence
+					kept := sum.Infra[:0]
+					for _, m := range sum.Infra {
+						if !strings.HasPrefix(m, "worker failure not reproduced") {
+							kept = append(kept, m)
+						}
+					}
+					sum.Infra = kept
+				}
+				mu.Unlock()
 			}
 		}()
 	}
